@@ -210,7 +210,7 @@ class Gen:
                 ops.append("O:%d" % r.randrange(self.nfiles))       # a real re-open
                 if self.hangs < 2:
                     self.hangs += 1
-                    ops.append("S:0:%s:n:1" % hx("arch.ptr_size"))  # needs the write lock: known finding
+                    ops.append("S:0:%s:n:1" % hx("arch.ptr_size"))  # needs the write lock (hung before fixes/48)
         return ops
 
 
